@@ -7,6 +7,7 @@ import (
 	"fmt"
 	"go/types"
 	"runtime/debug"
+	"sort"
 	"strings"
 
 	"golang.org/x/tools/go/ssa"
@@ -34,6 +35,9 @@ func (p *Program) verifyFunc(key string, mode string) (u *Unit) {
 	u = &Unit{Key: key, Kind: "func"}
 	fn := p.findFunc(key)
 	fc := p.Contracts[key]
+	if fc == nil && fn != nil && fn.Synthetic == "package initializer" && len(p.Globals[pkgPathOf(fn)]) > 0 {
+		fc = &FuncContract{PkgPath: pkgPathOf(fn), Name: "init", File: "global invariants of " + shortKey(pkgPathOf(fn))}
+	}
 	u.Contract = fc
 	if fn == nil {
 		u.Err = fmt.Sprintf("function %s not found in the current tree (contract cannot bind)", key)
@@ -109,6 +113,18 @@ func (p *Program) verifyFunc(key string, mode string) (u *Unit) {
 	for _, fv := range fn.FreeVars {
 		bind(fv, fv.Name())
 	}
+	if fn.Synthetic == "package initializer" {
+		// the initialiser body runs exactly once: its guard is false on entry
+		if g, ok := fn.Pkg.Members["init$guard"].(*ssa.Global); ok {
+			gv := f.val(g)
+			a := e.addrOfPointer(gv)
+			c.assert(not(e.load(st, a)))
+		}
+		for _, v := range p.globalsReadonlyViolations(pkgPathOf(fn)) {
+			e.addObl(&Obligation{Name: shortKey(key) + "#readonly[" + v + "]", Kind: "table", Func: shortKey(key), Guard: "true", Goal: "false", Text: "package-level table is written outside the initialiser: " + v})
+		}
+		e.addObl(&Obligation{Name: shortKey(key) + "#readonly[scan]", Kind: "table", Func: shortKey(key), Guard: "true", Goal: "true", Text: "package-level variables named in global invariants are only assigned by the initialiser"})
+	}
 	// preconditions (lets that do not mention results are bound first)
 	env := f.funcEnv(st, st)
 	preLets := map[string]*Val{}
@@ -127,6 +143,7 @@ func (p *Program) verifyFunc(key string, mode string) (u *Unit) {
 				}
 			}
 		}
+		f.lets = preLets
 		for _, r := range fc.Requires {
 			g, err := env.evalBool(r.E)
 			if err != nil {
@@ -136,9 +153,36 @@ func (p *Program) verifyFunc(key string, mode string) (u *Unit) {
 			c.assert(g)
 		}
 	}
+	refd := referencedGlobals(fn, 3, map[*ssa.Function]bool{})
+	// invariants about the referenced variables, and (transitively) about the
+	// variables those invariants mention
+	useInv := map[*Clause]bool{}
+	for changed := true; changed; {
+		changed = false
+		for _, g := range p.Globals[pkgPathOf(fn)] {
+			if useInv[g] {
+				continue
+			}
+			for n := range refd {
+				if exprMentions(g.E, n) {
+					useInv[g] = true
+					changed = true
+					for _, m := range p.ByPath[pkgPathOf(fn)].Types.Scope().Names() {
+						if exprMentions(g.E, m) {
+							refd[m] = true
+						}
+					}
+					break
+				}
+			}
+		}
+	}
 	for _, g := range p.Globals[pkgPathOf(fn)] {
 		if fn.Name() == "init" {
 			break
+		}
+		if !useInv[g] {
+			continue
 		}
 		ge := &Env{enc: e, frame: f, vars: map[string]*Val{}, st: st, old: st, res: p.resolver(pkgPathOf(fn), nil)}
 		t, err := ge.evalBool(g.E)
@@ -448,4 +492,81 @@ func (e *Enc) addAxioms() {
 			e.usedTrusted["axiom "+ax.cl.Label] = ax.cl.Text
 		}
 	}
+}
+
+// globalsReadonlyViolations scans the repository for writes to the package-level
+// variables that the package's global invariants speak about, outside init.
+func (p *Program) globalsReadonlyViolations(pkgPath string) []string {
+	names := map[string]bool{}
+	var collect func(e *Expr)
+	collect = func(e *Expr) {
+		if e == nil {
+			return
+		}
+		if e.Op == "id" {
+			names[e.Name] = true
+		}
+		for _, a := range e.Args {
+			collect(a)
+		}
+	}
+	for _, g := range p.Globals[pkgPath] {
+		collect(g.E)
+	}
+	var out []string
+	for key, fn := range p.fnByKey {
+		if fn.Synthetic == "package initializer" || !isRepoPkg(pkgPathOf(fn)) {
+			continue
+		}
+		for _, b := range fn.Blocks {
+			for _, ins := range b.Instrs {
+				switch x := ins.(type) {
+				case *ssa.Store:
+					if g, ok := x.Addr.(*ssa.Global); ok && g.Pkg.Pkg.Path() == pkgPath && names[g.Name()] {
+						out = append(out, g.Name()+" assigned in "+shortKey(key))
+					}
+				case *ssa.MapUpdate:
+					if u, ok := x.Map.(*ssa.UnOp); ok {
+						if g, ok := u.X.(*ssa.Global); ok && g.Pkg.Pkg.Path() == pkgPath && names[g.Name()] {
+							out = append(out, g.Name()+" updated in "+shortKey(key))
+						}
+					}
+				}
+			}
+		}
+	}
+	sort.Strings(out)
+	return out
+}
+
+// referencedGlobals: names of package-level variables a function (and the
+// repository helpers it calls, to the given depth) refers to.
+func referencedGlobals(fn *ssa.Function, depth int, seen map[*ssa.Function]bool) map[string]bool {
+	out := map[string]bool{}
+	if fn == nil || seen[fn] || depth < 0 {
+		return out
+	}
+	seen[fn] = true
+	for _, b := range fn.Blocks {
+		for _, ins := range b.Instrs {
+			for _, op := range ins.Operands(nil) {
+				if g, ok := (*op).(*ssa.Global); ok {
+					out[g.Name()] = true
+				}
+			}
+			if c, ok := ins.(ssa.CallInstruction); ok {
+				if callee := c.Common().StaticCallee(); callee != nil && isRepoPkg(pkgPathOf(callee)) {
+					for n := range referencedGlobals(callee, depth-1, seen) {
+						out[n] = true
+					}
+				}
+			}
+			if mc, ok := ins.(*ssa.MakeClosure); ok {
+				for n := range referencedGlobals(mc.Fn.(*ssa.Function), depth-1, seen) {
+					out[n] = true
+				}
+			}
+		}
+	}
+	return out
 }
